@@ -38,6 +38,8 @@ type propCfg struct {
 	Simd     []string // per-run -simd values (nil = tape)
 	Rule     string
 	RaceDiv  int // the race build runs total/RaceDiv worlds
+	// Differential: the per-world comparison digests ("C" lines) of all builds must agree
+	Differential bool
 	Real     []string
 	Stub     []string
 }
@@ -77,6 +79,9 @@ func init() {
 	})
 	addCfg(&propCfg{ID: "C03", Level: "exploration", Quick: 30000, Thorough: 2000000,
 		Rule: "one world per seed index: IDL + 1-4 conforming messages (every int boundary, float classes incl. subnormal/-0 and, in 1/6 of the messages, NaN/+-Inf; strings with escape-relevant code points and lengths around 15-17/31-33/4095-4097; int- and string-keyed maps; unknown fields) encoded by the harness encoder; each message converted under 2-4 environments (Do / DoInto with capacity classes incl. 2*len(src)+delta and expected-k, prefix, canary / guard page; conv.DefaultBufferSize 1/16/4096/65536; recycled poisoned pools; a failing conversion right before; GC+clobber; SIMD flavour; options Int642String, ByteAsUint8, NoBase64Binary, DisallowUnknownField, UseNativeSkip, EnableValueMapping). Oracle: error, or output parses with encoding/json (UseNumber, strict) and denotes exactly the model; identical across environments. distinct_nontrivial = distinct (option set x buffer size x capacity modes x flavour) signatures"})
+	addCfg(&propCfg{ID: "C18", Level: "exploration", Quick: 20000, Thorough: 1500000, Builds: []string{"native", "portable"}, Differential: true,
+		Rule: "one world per seed index: IDL + 1-4 JSON documents (conforming, or with one value spelled with a kind-contradicting literal) + scalars; the workload is generated completely before any library call so that both builds replay identical tapes. native build: every conversion runs under avx2, avx and sse in-process (native.SimUse) and the outputs must be identical, contradicting documents rejected by every flavour; SkipNative vs SkipGo on the encoded values and on truncated ones; EncodeInt64/EncodeFloat64/EncodeString under each flavour against strconv / encoding/json with output capacity classes and the source string flush against a guard page. portable build (overlay flips the amd64&&!go1.25 constraints): same tapes; the driver compares the per-world comparison digests (output bytes or 'rejected', bytes skipped) of both builds. distinct_nontrivial = distinct (doc count x option) signatures",
+		Stub: append([]string{"CPU flavour -> native.SimUse(avx2|avx|sse) per operation; portable Go implementation -> second build with flipped build constraints"}, stubsCommon...)})
 }
 
 func goEnv() []string {
@@ -186,6 +191,7 @@ type runner struct {
 	trunc    bool
 	digests  map[uint64]string
 	wantDig  bool
+	cmps     map[uint64]string
 }
 
 func workerEnv() []string {
@@ -256,6 +262,17 @@ func (r *runner) runChunk(from, to uint64) {
 					json.Unmarshal([]byte(m[5]), &vv)
 					r.mu.Lock()
 					r.viols = append(r.viols, &violation{Index: uint64(v), Class: vv.Class, Detail: vv.Detail, Facts: vv.Facts, Replay: m[4], Build: r.build, Simd: r.simd})
+					r.mu.Unlock()
+				}
+			case strings.HasPrefix(line, "C "):
+				var ci uint64
+				var cv string
+				if n, _ := fmt.Sscanf(line, "C %d %s", &ci, &cv); n == 2 {
+					r.mu.Lock()
+					if r.cmps == nil {
+						r.cmps = map[uint64]string{}
+					}
+					r.cmps[ci] = cv
 					r.mu.Unlock()
 				}
 			case strings.HasPrefix(line, "S "):
@@ -507,6 +524,41 @@ func (r *runner) confirm(v *violation) bool {
 	return false
 }
 
+// oneCmp runs a single world and returns its comparison digest.
+func (r *runner) oneCmp(idx uint64, trace bool) (string, string) {
+	args := []string{"-prop", r.cfg.ID, "-tier", r.tier, "-seed", fmt.Sprint(r.seed), "-from", fmt.Sprint(idx), "-to", fmt.Sprint(idx + 1), "-shrink", "0", "-simd", r.simd}
+	cmd := exec.Command(r.bin, args...)
+	cmd.Env = workerEnv()
+	if trace {
+		cmd.Args = append(cmd.Args, "-trace")
+	}
+	outb, _ := cmd.Output()
+	c := ""
+	for _, line := range strings.Split(string(outb), "\n") {
+		if strings.HasPrefix(line, "C ") {
+			f := strings.Fields(line)
+			if len(f) == 3 {
+				c = f[2]
+			}
+		}
+	}
+	return c, string(outb)
+}
+
+func confirmDifferential(runners []*runner, v *violation) bool {
+	if len(runners) < 2 {
+		return false
+	}
+	a, _ := runners[0].oneCmp(v.Index, false)
+	for _, o := range runners[1:] {
+		b, _ := o.oneCmp(v.Index, false)
+		if a != "" && b != "" && a != b {
+			return true
+		}
+	}
+	return false
+}
+
 // ---- known findings
 
 type knownFinding struct {
@@ -665,6 +717,36 @@ func cmdCheck(args []string) int {
 		runners = append(runners, r)
 	}
 
+	// differential: comparison digests of all builds must agree world by world
+	if cfg.Differential && len(runners) > 1 {
+		base := runners[0]
+		var idxs []uint64
+		for i := range base.cmps {
+			idxs = append(idxs, i)
+		}
+		sort.Slice(idxs, func(a, b int) bool { return idxs[a] < idxs[b] })
+		ndiff := 0
+		for _, other := range runners[1:] {
+			for _, i := range idxs {
+				oc, ok := other.cmps[i]
+				if !ok || oc == base.cmps[i] {
+					continue
+				}
+				ndiff++
+				if ndiff > 3 {
+					continue
+				}
+				name := filepath.Join(verifDir, "replays", fmt.Sprintf("%s-%d-%d-diff.json", cfg.ID, seed, i))
+				rf := map[string]interface{}{"property": cfg.ID, "tier": *tier, "verif_seed": seed, "world_index": i, "tree_hash": tree, "differential": []string{base.build, other.build},
+					"violation": map[string]interface{}{"class": cfg.ID + "/builds-disagree", "detail": fmt.Sprintf("world %d: comparison digest %s under build %s, %s under build %s", i, base.cmps[i], base.build, oc, other.build)}}
+				jb, _ := json.MarshalIndent(rf, "", " ")
+				os.MkdirAll(filepath.Dir(name), 0o755)
+				os.WriteFile(name, jb, 0o644)
+				all = append(all, &violation{Index: i, Class: cfg.ID + "/builds-disagree", Detail: rf["violation"].(map[string]interface{})["detail"].(string), Replay: name, Build: "differential", Simd: base.simd, Confirm: "differential"})
+			}
+		}
+	}
+
 	// classify
 	exit := 0
 	knownPrinted := map[string]bool{}
@@ -697,6 +779,17 @@ func cmdCheck(args []string) int {
 			if r.build == v.Build && r.simd == v.Simd {
 				rr = r
 			}
+		}
+		if v.Build == "differential" {
+			if !confirmDifferential(runners, v) {
+				nonReplayable++
+				fmt.Fprintf(os.Stderr, "dynsim: NON-REPLAYABLE differential failure world=%d\n", v.Index)
+				continue
+			}
+			printed[v.Class] = true
+			fmt.Printf("VIOLATION property=%s replay=%s\n  %s\n", cfg.ID, v.Replay, v.Detail)
+			exit = 1
+			continue
 		}
 		if v.Replay == "" || !rr.confirm(v) {
 			nonReplayable++
@@ -827,12 +920,38 @@ func cmdReplay(args []string) int {
 		fatal2("%v", err)
 	}
 	var rf struct {
-		Property string `json:"property"`
-		Flavour  string `json:"flavour"`
-		Simd     string `json:"simd"`
+		Property     string   `json:"property"`
+		Flavour      string   `json:"flavour"`
+		Simd         string   `json:"simd"`
+		Differential []string `json:"differential"`
+		Seed         uint64   `json:"verif_seed"`
+		Index        uint64   `json:"world_index"`
+		Tier         string   `json:"tier"`
 	}
 	if err := json.Unmarshal(b, &rf); err != nil {
 		fatal2("%v", err)
+	}
+	if len(rf.Differential) > 0 {
+		cfg := cfgs[rf.Property]
+		if cfg == nil {
+			fatal2("unknown property %q", rf.Property)
+		}
+		var cmps []string
+		for _, build := range rf.Differential {
+			bin, th, _ := buildSim(build)
+			r := &runner{cfg: cfg, tier: rf.Tier, seed: rf.Seed, bin: bin, build: build, simd: "tape", tree: th}
+			c, out := r.oneCmp(rf.Index, true)
+			fmt.Printf("---- build %s: comparison digest %s\n%s", build, c, out)
+			cmps = append(cmps, c)
+		}
+		for _, c := range cmps[1:] {
+			if c != cmps[0] {
+				fmt.Printf("VIOLATION property=%s replay=%s\n", rf.Property, args[0])
+				return 1
+			}
+		}
+		fmt.Println("replay: builds agree, no violation")
+		return 0
 	}
 	if rf.Flavour == "" {
 		rf.Flavour = "native"
